@@ -53,6 +53,7 @@ type Point struct {
 type Sched struct {
 	mu       sync.Mutex
 	Active   bool
+	Free     bool // free-running mode (race pass): no scheduler at all, modelled objects use the real primitives
 	threads  []*Thread
 	byGid    map[uint64]*Thread
 	childCnt map[string]int
@@ -254,6 +255,46 @@ func Gate(kind string, obj any, enabled func() bool, apply func()) {
 	if S.abort {
 		runtime.Goexit()
 	}
+}
+
+// Monitor gives a modelled object real blocking semantics in passive (free-running) mode: a mutex and a condition
+// variable per object (or per connection), so that the race detector sees the happens-before edges the real thing
+// would have and no more. In active mode Do is exactly Gate.
+type Monitor struct {
+	mu sync.Mutex
+	c  *sync.Cond
+}
+
+func (mo *Monitor) Do(kind string, obj any, enabled func() bool, apply func()) {
+	if !S.Free {
+		Gate(kind, obj, enabled, apply)
+		return
+	}
+	mo.mu.Lock()
+	if mo.c == nil {
+		mo.c = sync.NewCond(&mo.mu)
+	}
+	for enabled != nil && !enabled() {
+		mo.c.Wait()
+	}
+	if apply != nil {
+		apply()
+	}
+	mo.c.Broadcast()
+	mo.mu.Unlock()
+}
+
+// Wake re-evaluates the waiters of the monitor (used at teardown in passive mode).
+func (mo *Monitor) Wake(f func()) {
+	mo.mu.Lock()
+	if mo.c == nil {
+		mo.c = sync.NewCond(&mo.mu)
+	}
+	if f != nil {
+		f()
+	}
+	mo.c.Broadcast()
+	mo.mu.Unlock()
 }
 
 // Pt is a pure scheduling point.
